@@ -4,11 +4,11 @@ CONSTANTS
   NBug = 1
   Author = {u1, u2}
   MaxHop = 1000
-  MaxCommit = 7
+  MaxCommit = 8
   RankDir = 1
   WithRestart = FALSE
   LoaderLess = FALSE
-  Reserve = 3
-INVARIANTS AllReadable
+  Reserve = 4
+INVARIANTS AllReadable RoomForMerges
 PROPERTY EventuallySame
 CHECK_DEADLOCK FALSE
